@@ -53,7 +53,7 @@ func goExecMore4(t []string) (string, bool) {
 		}
 		return fmt.Sprintf("ok armored=%s %s %d %d.%d %s", boolS(arm), keys.Hex([]byte(brand)), int(typ), ver.Major, ver.Minor, rem), true
 	}
-	for _, f := range []func([]string) (string, bool){goExecExtA, goExecExtB, goExecExtC, goExecExtD} {
+	for _, f := range []func([]string) (string, bool){goExecExtA, goExecExtB, goExecExtC, goExecExtD, goExecExtF, goExecExtG} {
 		if out, ok := f(t); ok {
 			return out, true
 		}
